@@ -3,6 +3,7 @@ import N0Verif.Proofs.FindAllDesc
 import N0Verif.Proofs.FindAllList
 import N0Verif.Proofs.FindAllTail
 import N0Verif.Proofs.FindAllTailLists
+import N0Verif.Proofs.FindAllTailN
 import N0Verif.Props.C01
 /-!
 # C19 — dictionary findall returns complete, resolvable, history-independent results
@@ -1035,5 +1036,177 @@ example : getAt exTailL ([.key ['x']] ++ [.key ['n', 'a', 'm', 'e']] ++ [2, 0].m
     = some (.str ['b']) := by decide
 example : getAt exTailLR ([.idx 0] ++ [.key ['n', 'a', 'm', 'e']] ++ [1, 0].map Seg.idx ++ [.key ['s', 'u', 'b']])
     = some (.str ['b']) := by decide
+
+/-! ## 9. the descendant search with a tail of any length, `'//*/name/s1/…/sk'`
+
+`joinSl name subs` is `'/'.join([name] + subs)`; `tailN subs` iterates the one-step tail function of
+`C19_descendant_tail` (`tailOf`) along `subs` — `tailN [sub] = tailOf sub`, `tailN [] = id` (`'//*/name'`).
+Hypothesis `NnlsV (name :: subs).dropLast root`: no entry called like a NON-final step is a list (the
+last step may hold anything). -/
+
+/-- **`'//*/name/s1/…/sk'` on a dict root, any k**: for every tree (any size and depth), every plain
+names, both modes: exactly the pairs of the reference `tailN subs (descV name root)` — below every
+node called `name` (any depth, document order) the node reached by the keys `s1 … sk` through
+dictionaries — keys `"//" ++` rendered position, no key twice (`C19_descendant_tail_n_distinct`).  A
+walk that meets a missing key or a final element is a miss of that branch only. -/
+theorem C19_descendant_tail_n (cls : Cls) (kvs : List (Str × Val)) (name : Str) (subs : List Str)
+    (hn : PlainKey name) (hs : ∀ s ∈ subs, PlainKey s)
+    (hk : KeysOkV (.dict cls kvs)) (hc : ContOkV (.dict cls kvs))
+    (hl : NnlsV (name :: subs).dropLast (.dict cls kvs)) (re : Bool := true) :
+    ∃ n, ∀ fuel ≥ n,
+      (findallTop fuel fresh (.dict cls kvs) (['/', '/', '*', '/'] ++ joinSl name subs) re).res =
+        .ok (some ((tailN subs (descV name (.dict cls kvs))).map (fun pv => (slash ++ renderPos pv.1, pv.2)))) := by
+  obtain ⟨n, hN⟩ := fatn_descendant re hn hs cls kvs hk hc hl
+  refine ⟨n, fun fuel hf => ?_⟩
+  show (fa re fuel _ (tokens _) [] []).res = _
+  rw [fatn_tokens hn hs]
+  exact hN fuel hf
+
+/-- the reference lists no position twice and only plain positions (so no key is reported twice) -/
+theorem C19_descendant_tail_n_distinct (t : Val) (name : Str) (subs : List Str) (hs : ∀ s ∈ subs, PlainKey s)
+    (hk : KeysOkV t) :
+    (tailN subs (descV name t)).Pairwise (fun a b => a.1 ≠ b.1) ∧ ∀ pv ∈ tailN subs (descV name t), PlainPos pv.1 :=
+  ⟨fatn_tail_distinct subs _ ((fad_desc_distinct name).1 _ hk).1, fatn_tail_plain subs hs _ (fad_desc_plain hk)⟩
+
+/-- one step is the reference of `C19_descendant_tail`; below one node the reference is the walk along the keys -/
+theorem C19_descendant_tail_n_ref (sub : Str) (subs : List Str) (l : List (Pos × Val)) (p : Pos) (v : Val) :
+    tailN [sub] l = tailOf sub l ∧
+    tailN subs [(p, v)] = (match walkN subs v with
+      | some x => [(p ++ subs.map Seg.key, x)]
+      | Option.none => []) :=
+  ⟨rfl, tailN_single subs p v⟩
+
+/-- **Both inclusions**: the pairs listed are exactly the nodes at the positions that end with the keys
+`name, s1, …, sk` — every such node, at any depth, and nothing else -/
+theorem C19_descendant_tail_n_positions (t : Val) (name : Str) (subs : List Str) (hk : KeysOkV t) (p : Pos) (v : Val) :
+    (p, v) ∈ tailN subs (descV name t) ↔
+      ∃ q, p = q ++ (name :: subs).map Seg.key ∧ getAt t p = some v :=
+  fatn_tail_mem_getAt name subs t hk p v
+
+/-- the statement in the form "found iff it is the node at a position `…/name/s1/…/sk`" -/
+theorem C19_descendant_tail_n_iff (cls : Cls) (kvs : List (Str × Val)) (name : Str) (subs : List Str)
+    (hn : PlainKey name) (hs : ∀ s ∈ subs, PlainKey s)
+    (hk : KeysOkV (.dict cls kvs)) (hc : ContOkV (.dict cls kvs))
+    (hl : NnlsV (name :: subs).dropLast (.dict cls kvs)) (re : Bool := true) :
+    ∃ n, ∀ fuel ≥ n, ∃ f,
+      (findallTop fuel fresh (.dict cls kvs) (['/', '/', '*', '/'] ++ joinSl name subs) re).res = .ok (some f) ∧
+      ∀ xp v, (xp, v) ∈ f ↔
+        ∃ q, getAt (.dict cls kvs) (q ++ (name :: subs).map Seg.key) = some v ∧
+          xp = slash ++ renderPos (q ++ (name :: subs).map Seg.key) := by
+  obtain ⟨n, hN⟩ := C19_descendant_tail_n cls kvs name subs hn hs hk hc hl re
+  refine ⟨n, fun fuel hf => ⟨_, hN fuel hf, fun xp v => ?_⟩⟩
+  simp only [List.mem_map, Prod.mk.injEq]
+  constructor
+  · rintro ⟨⟨p, w⟩, hm, rfl, rfl⟩
+    obtain ⟨q, rfl, hg⟩ := (C19_descendant_tail_n_positions _ name subs hk p w).1 hm
+    exact ⟨q, hg, rfl⟩
+  · rintro ⟨q, hg, rfl⟩
+    exact ⟨(q ++ (name :: subs).map Seg.key, v),
+      (C19_descendant_tail_n_positions _ name subs hk _ v).2 ⟨q, rfl, hg⟩, rfl, rfl⟩
+
+/-- a tree for tails of three and four steps: `a/b/c` at the root (a dictionary), below `x`, nested below
+`a/b` itself, below a list element; branches that miss (`x/z/a/b` a final element, `l[1]/a` an integer,
+`y/a` without `b`) -/
+def exTailN : Val :=
+  .dict .n0 [(['x'], .dict .n0 [(['a'], .dict .n0 [(['b'], .dict .n0 [(['c'], .str ['p']), (['o'], .int 1)])]),
+                               (['z'], .dict .n0 [(['a'], .dict .n0 [(['b'], .str ['f'])])])]),
+             (['a'], .dict .n0 [(['b'], .dict .n0 [(['c'], .dict .n0 [(['d'], .str ['q'])]),
+                               (['a'], .dict .n0 [(['b'], .dict .n0 [(['c'], .str ['r'])])])])]),
+             (['l'], .list .n0 [.dict .n0 [(['a'], .dict .n0 [(['b'], .dict .n0 [(['c'], .str ['s'])])])],
+                               .dict .n0 [(['a'], .int 5)]]),
+             (['y'], .dict .n0 [(['a'], .dict .n0 [(['k'], .int 1)])])]
+
+-- non-vacuity of `C19_descendant_tail_n` (k = 3 and k = 4): the hypotheses hold for `exTailN`, the references are
+-- not empty, and the model's answers are what the real code returns for `findall('//*/a/b/c')`
+-- (`{'//a/b/c': {'d': 'q'}, '//x/a/b/c': 'p', '//a/b/a/b/c': 'r', '//l[0]/a/b/c': 's'}`) and
+-- `findall('//*/a/b/c/d')` (`{'//a/b/c/d': 'q'}`), both modes
+example : KeysOkV exTailN ∧ ContOkV exTailN ∧ NnlsV ([['a'], ['b'], ['c']] : List Str).dropLast exTailN ∧
+    NnlsV ([['a'], ['b'], ['c'], ['d']] : List Str).dropLast exTailN := by
+  have pk : ∀ k : Str, k ≠ [] → (∀ c ∈ k, plainChar c = true) → k ≠ ['.', '.'] → PlainKey k :=
+    fun k h1 h2 h3 => ⟨h1, h2, h3⟩
+  simp only [exTailN, KeysOkV, KeysOkK, KeysOkL, ContOkV, ContOkK, ContOkL, NnlsV, NnlsK, NnlsL, lookup,
+    FindAll.isContainer, List.dropLast]
+  refine ⟨?_, by decide, ?_, ?_⟩
+  · repeat' apply And.intro
+    all_goals first | exact pk _ (by decide) (by decide) (by decide) | trivial | decide
+  · repeat' apply And.intro
+    all_goals first | trivial | (intro n hn c xs h; revert h; simp at hn; rcases hn with rfl | rfl <;> simp)
+  · repeat' apply And.intro
+    all_goals first | trivial | (intro n hn c xs h; revert h; simp at hn; rcases hn with rfl | rfl | rfl <;> simp)
+example : joinSl ['a'] [['b'], ['c']] = "a/b/c".toList ∧ joinSl ['a'] [['b'], ['c'], ['d']] = "a/b/c/d".toList := by
+  decide
+example : tailN [['b'], ['c']] (descV ['a'] exTailN) =
+    [([.key ['a'], .key ['b'], .key ['c']], .dict .n0 [(['d'], .str ['q'])]),
+     ([.key ['x'], .key ['a'], .key ['b'], .key ['c']], .str ['p']),
+     ([.key ['a'], .key ['b'], .key ['a'], .key ['b'], .key ['c']], .str ['r']),
+     ([.key ['l'], .idx 0, .key ['a'], .key ['b'], .key ['c']], .str ['s'])] := by
+  simp [exTailN, descV, descK, descL, lookup, tailN, tailOf, tl1]
+example : tailN [['b'], ['c'], ['d']] (descV ['a'] exTailN) =
+    [([.key ['a'], .key ['b'], .key ['c'], .key ['d']], .str ['q'])] := by
+  simp [exTailN, descV, descK, descL, lookup, tailN, tailOf, tl1]
+example : ∀ re, (findallTop 30 fresh exTailN "//*/a/b/c".toList re).res =
+    .ok (some [("//a/b/c".toList, .dict .n0 [(['d'], .str ['q'])]), ("//x/a/b/c".toList, .str ['p']),
+      ("//a/b/a/b/c".toList, .str ['r']), ("//l[0]/a/b/c".toList, .str ['s'])]) := by
+  decide +kernel
+example : ∀ re, (findallTop 30 fresh exTailN "//*/a/b/c/d".toList re).res =
+    .ok (some [("//a/b/c/d".toList, .str ['q'])]) := by
+  decide +kernel
+
+
+/-- **`'//*/name/s1/…/sk'` on a list root (`n0list`), any k**: exactly the pairs of the same reference
+`tailN subs (descV name root)`, keys `"//" ++` rendered position (`//[0]/x/a/b/c`), document order -/
+theorem C19_descendant_tail_n_list_root (cls : Cls) (xs : List Val) (name : Str) (subs : List Str)
+    (hn : PlainKey name) (hs : ∀ s ∈ subs, PlainKey s)
+    (hk : KeysOkV (.list cls xs)) (hc : ContOkV (.list cls xs))
+    (hl : NnlsV (name :: subs).dropLast (.list cls xs)) (re : Bool := true) :
+    ∃ n, ∀ fuel ≥ n,
+      (findallTop fuel fresh (.list cls xs) (['/', '/', '*', '/'] ++ joinSl name subs) re).res =
+        .ok (some ((tailN subs (descV name (.list cls xs))).map (fun pv => ('/' :: '/' :: renderPos pv.1, pv.2)))) := by
+  obtain ⟨n, hN⟩ := fatn_descendant_list re hn hs cls xs hk hc hl
+  refine ⟨n, fun fuel hf => ?_⟩
+  show (fa re fuel _ (tokens _) [] []).res = _
+  rw [fatn_tokens hn hs]
+  exact hN fuel hf
+
+/-- a list root for tails of three and four steps: matches in a dictionary element, below `x` (a dictionary),
+in a nested list below `z`; `[1][0]/a/b` a final element and `[2]/a` an integer miss -/
+def exTailNR : Val :=
+  .list .n0 [.dict .n0 [(['a'], .dict .n0 [(['b'], .dict .n0 [(['c'], .str ['p'])])]),
+                        (['x'], .dict .n0 [(['a'], .dict .n0 [(['b'], .dict .n0 [(['c'], .dict .n0 [(['d'], .str ['q'])])])])])],
+             .list .n0 [.dict .n0 [(['a'], .dict .n0 [(['b'], .str ['f'])])],
+                        .dict .n0 [(['z'], .dict .n0 [(['a'], .dict .n0 [(['b'], .dict .n0 [(['c'], .str ['r'])])])])]],
+             .dict .n0 [(['a'], .int 5)]]
+
+-- non-vacuity of `C19_descendant_tail_n_list_root` (k = 3, 4); the real code returns
+-- `{'//[0]/a/b/c': 'p', '//[0]/x/a/b/c': {'d': 'q'}, '//[1][1]/z/a/b/c': 'r'}` and `{'//[0]/x/a/b/c/d': 'q'}` (both modes)
+example : KeysOkV exTailNR ∧ ContOkV exTailNR ∧ NnlsV ([['a'], ['b'], ['c']] : List Str).dropLast exTailNR ∧
+    NnlsV ([['a'], ['b'], ['c'], ['d']] : List Str).dropLast exTailNR := by
+  have pk : ∀ k : Str, k ≠ [] → (∀ c ∈ k, plainChar c = true) → k ≠ ['.', '.'] → PlainKey k :=
+    fun k h1 h2 h3 => ⟨h1, h2, h3⟩
+  simp only [exTailNR, KeysOkV, KeysOkK, KeysOkL, ContOkV, ContOkK, ContOkL, NnlsV, NnlsK, NnlsL, lookup,
+    FindAll.isContainer, List.dropLast]
+  refine ⟨?_, by decide, ?_, ?_⟩
+  · repeat' apply And.intro
+    all_goals first | exact pk _ (by decide) (by decide) (by decide) | trivial | decide
+  · repeat' apply And.intro
+    all_goals first | trivial | (intro n hn c xs h; revert h; simp at hn; rcases hn with rfl | rfl <;> simp)
+  · repeat' apply And.intro
+    all_goals first | trivial | (intro n hn c xs h; revert h; simp at hn; rcases hn with rfl | rfl | rfl <;> simp)
+example : tailN [['b'], ['c']] (descV ['a'] exTailNR) =
+    [([.idx 0, .key ['a'], .key ['b'], .key ['c']], .str ['p']),
+     ([.idx 0, .key ['x'], .key ['a'], .key ['b'], .key ['c']], .dict .n0 [(['d'], .str ['q'])]),
+     ([.idx 1, .idx 1, .key ['z'], .key ['a'], .key ['b'], .key ['c']], .str ['r'])] := by
+  simp [exTailNR, descV, descK, descL, lookup, tailN, tailOf, tl1]
+example : ∀ re, (findallTop 30 fresh exTailNR "//*/a/b/c".toList re).res =
+    .ok (some [("//[0]/a/b/c".toList, .str ['p']), ("//[0]/x/a/b/c".toList, .dict .n0 [(['d'], .str ['q'])]),
+      ("//[1][1]/z/a/b/c".toList, .str ['r'])]) := by
+  decide +kernel
+example : ∀ re, (findallTop 30 fresh exTailNR "//*/a/b/c/d".toList re).res =
+    .ok (some [("//[0]/x/a/b/c/d".toList, .str ['q'])]) := by
+  decide +kernel
+
+-- non-vacuity of the membership forms: the position `a/b/a/b/c` of `exTailN` holds `'r'`
+example : getAt exTailN ([.key ['a'], .key ['b']] ++ ([['a'], ['b'], ['c']] : List Str).map Seg.key) = some (.str ['r']) := by
+  decide
 
 end N0.C19
